@@ -5,7 +5,7 @@ import ast
 import re
 from typing import Optional
 
-from ..core import AnalysisError, FunctionInfo, Project, dotted, is_const, kwarg, norm, param_names, walk_no_nested
+from ..core import at_default, AnalysisError, FunctionInfo, Project, dotted, is_const, kwarg, norm, param_names, walk_no_nested
 from ..core import arg_for
 from ..util import canon, returns_of
 from .. import sym
@@ -165,7 +165,7 @@ def r2(ctx):
     cp = param_names(ce.node)
     ok = isinstance(c, ast.Call) and P.resolve_in(ce, c.func) == sc.qualname and \
         [norm(x) if x is not None else None for x in (arg_for(c, sc.node, pd), arg_for(c, sc.node, ps), arg_for(c, sc.node, pst))] == [cp[0], "False", cp[-1]] \
-        and arg_for(c, sc.node, pc) is None and arg_for(c, sc.node, pf) is None
+        and at_default(c, sc.node, pc) and at_default(c, sc.node, pf)
     ctx.check(ok, "C13.R2", "center = scale(..., scale=False) with the same state", ce.where,
               ctx.construct(ce, text="delegate"), f"center returns `{norm(c) if c is not None else None}`")
     sd = P.func("formulaic.transforms.patsy_compat.standardize")
@@ -205,6 +205,9 @@ def r2(ctx):
     GA, GB = getters.get("alpha", "get_alpha"), getters.get("beta", "get_beta")
     Pm = (ba or {}).get("VAR_P", "P")
     deg = param_names(fnp)[1]
+    # the beta coefficient may be written at its only use instead of behind a getter: beta_{i-1} = norm_{i-1} / norm_{i-2}
+    inline_beta = [f"{Pm}[:, VAR_i] -= {G}(VAR_i - 1) / {G}(VAR_i - 2) * {Pm}[:, VAR_i - 2]", f"{Pm}[:, VAR_i] -= ({G}(VAR_i - 1) / {G}(VAR_i - 2)) * {Pm}[:, VAR_i - 2]",
+                   f"{Pm}[:, VAR_i] = {Pm}[:, VAR_i] - {G}(VAR_i - 1) / {G}(VAR_i - 2) * {Pm}[:, VAR_i - 2]"]
     poly_checks = [
         ("rows with nulls yield nulls", has("VAR_o.fill(numpy.nan)", "VAR_o = numpy.full(ANY_s, numpy.nan)", "VAR_o = numpy.full(ANY_s, fill_value=numpy.nan)"),
          "the output matrix must start filled with NaN"),
@@ -217,11 +220,12 @@ def r2(ctx):
          "alpha must be read from _state"),
         ("three-term recurrence, first order", has(f"{Pm}[:, VAR_i] = (VAR_x - {GA}(VAR_i - 1)) * {Pm}[:, VAR_i - 1]"),
          f"expected `{Pm}[:, i] = (x - {GA}(i - 1)) * {Pm}[:, i - 1]`"),
-        ("three-term recurrence, second order", has(f"{Pm}[:, VAR_i] -= {GB}(VAR_i - 1) * {Pm}[:, VAR_i - 2]", f"{Pm}[:, VAR_i] = {Pm}[:, VAR_i] - {GB}(VAR_i - 1) * {Pm}[:, VAR_i - 2]"),
+        ("three-term recurrence, second order", has(f"{Pm}[:, VAR_i] -= {GB}(VAR_i - 1) * {Pm}[:, VAR_i - 2]", f"{Pm}[:, VAR_i] = {Pm}[:, VAR_i] - {GB}(VAR_i - 1) * {Pm}[:, VAR_i - 2]",
+                                                    *inline_beta),
          f"expected `{Pm}[:, i] -= {GB}(i - 1) * {Pm}[:, i - 2]`"),
         ("alpha_k = <x p_k, p_k> / <p_k, p_k>", ba if ba and "alpha" in getters else None, "expected `alpha[k] = numpy.sum(x * P[:, k] ** 2) / numpy.sum(P[:, k] ** 2)` in the getter that returns alpha[k]"),
         ("norm_k = <p_k, p_k>", bn if bn and "norm" in getters else None, "expected `norms2[k] = numpy.sum(P[:, k] ** 2)` in the getter that returns norms2[k]"),
-        ("beta_k = norm_k / norm_{k-1}", getters.get("beta"), f"expected a getter returning `{G}(k) / {G}(k - 1)`"),
+        ("beta_k = norm_k / norm_{k-1}", getters.get("beta") or has(*inline_beta), f"expected a getter returning `{G}(k) / {G}(k - 1)` (or that ratio written in the recurrence itself)"),
         ("every column is divided by the root of its own squared norm",
          has(f"{Pm} /= numpy.array([numpy.sqrt({G}(VAR_k)) for VAR_k in range(0, {deg} + 1)])", f"{Pm} /= numpy.array([numpy.sqrt({G}(VAR_k)) for VAR_k in range({deg} + 1)])",
              f"{Pm} = {Pm} / numpy.array([numpy.sqrt({G}(VAR_k)) for VAR_k in range(0, {deg} + 1)])", f"{Pm} /= numpy.sqrt(numpy.array([{G}(VAR_k) for VAR_k in range(0, {deg} + 1)]))"),
